@@ -27,6 +27,7 @@ func runC10Gaps2(c *eng.Ctx) {
 	c10gSealInternal(c)
 	c10gRotationEnvelope(c)
 	c10gUpgradeKeyPublished(c)
+	keyringZeroizeOwnership(c, "C10.2")
 }
 
 // c10gRecvKeyring: f is a method with receiver *Keyring.
